@@ -23,6 +23,9 @@ var snapSeeds = []snapSeed{
 	{"full", 3, []uint64{1, 2, 3}, nil, []string{"T:1", "run", "update:1", "run", "update:1", "run", "update:1", "run", "update:1", "run"}, nil},
 	// follower n3 missed everything after the first update; the leader already took a snapshot and compacted
 	{"lagging", 3, []uint64{1, 2, 3}, nil, []string{"T:1", "run", "update:1", "run", "block:1:3", "update:1", "run", "update:1", "run", "update:1", "run", "update:1", "run", "snap:1", "run", "heal:1:3"}, nil},
+	// compaction boundary: n3 is cut off with its match index (4) exactly at the end of the first segment, n2 is one
+	// entry into the next segment, the leader has taken a snapshot at 5; n3 is back in contact
+	{"boundary", 3, []uint64{1, 2, 3}, nil, []string{"T:1", "run", "update:1", "run", "update:1", "run", "block:1:3", "update:1", "run", "snap:1", "run", "heal:1:3"}, nil},
 	// divergent follower that needs a snapshot: n1 was cut off as leader of term 2 with four uncommitted entries (5..8);
 	// n2 leads term 3, committed other entries at 5..8 with n3, took a snapshot at 8 and compacted; n1 is back
 	{"divergent", 3, []uint64{1, 2, 3}, nil, []string{"T:1", "run", "update:1", "run", "update:1", "run",
@@ -79,7 +82,7 @@ func scenSnap(seed snapSeed, dev int, eagerFSM bool, orderCost bool, maxSnaps in
 func snapScenarios(tier string) []*simScenario {
 	var out []*simScenario
 	for _, s := range snapSeeds {
-		if s.name == "divergent" || s.name == "config-lagging" {
+		if s.name == "divergent" || s.name == "config-lagging" || s.name == "boundary" {
 			d := 2
 			if tier == "thorough" {
 				d = 3
@@ -107,7 +110,7 @@ func init() {
 		}
 		return 240 * time.Second
 	}
-	c09 := &simCheckSpec{Prop: "C09", Oracles: []string{"apply", "snapshot", "view"},
+	c09 := &simCheckSpec{Prop: "C09", Oracles: []string{"apply", "snapshot", "view", "alive"},
 		Scenarios: snapScenarios, Budget: budget, MustReach: []string{"snapshots"},
 		Assume: []string{"'nor invalidates log data a replication task is still reading' is decided by a guard that reports any Log.Get/GetN through an unmapped segment (a SIGSEGV in production) made by the raft, FSM or replication code"}}
 	vkChecks["C09"] = func(args []string) int { return runSimCheck(c09, args) }
